@@ -4,6 +4,7 @@
   chunk entry and the key ends in L2), is stored in L2 and answered "key exists".  Core-only.
 -/
 import Rend.Proofs.ChunkedSerial2
+import Rend.SpecStep
 
 namespace Rend
 open Rend.Chunked
@@ -44,5 +45,13 @@ theorem remnant_blocks_add (now : Nat) (w : World) (tk : List Bytes) (c : SetCmd
       Prog.eval_bind, Prog.eval_req, Prog.eval_pure, World.get, World.put, e2, Prog.token, Prog.eval]
     rw [exec_add_present now w.l1 _ rfl it (by exact hl1)]
     simp [hdec, Store.set]
+
+/-- …while the single map, which does not hold the key, stores the value and acknowledges it. -/
+theorem spec_add_absent (now : Nat) (s : Store) (c : SetCmd) (h : s.look now c.key = none) :
+    Spec.step now s (.store .add c) = (s.set c.key (some ⟨c.data, c.flags, deadlineOf now c.exptime⟩), .ok) := by
+  unfold Spec.step
+  have := exec_add_absent now s { op := SetKind.add.op, key := c.key, flags := c.flags, exptime := c.exptime, value := c.data } rfl h
+  simp only at this ⊢
+  rw [this]
 
 end Rend
